@@ -5,6 +5,7 @@ rebuilt independently of the registry state:
   ("L", v)            RtLeaf(v)                     ("S", v)         RtSubLeaf(v)  (subclass of RtLeaf)
   ("F", v)            RtFalsy(v)  (len() == 0)      ("U", c, o)      RtUnary(child=c, opt=o|None)
   ("T", (c, ...))     RtList(items=(...))           ("X", a, b)      RtFixed(pair=(a, b)) (leaves)
+  ("D", d)            the tree d, detached right after construction (an equal tree built later shares its ids)
 The reference walk below knows the child fields by construction and never calls the accessors."""
 from __future__ import annotations
 
@@ -119,6 +120,11 @@ def build(desc: Any, origin_of: Any = None, path: tuple = ()) -> ASTNode:
         return RtList(tuple(build(d, origin_of, path + (("items", i),)) for i, d in enumerate(desc[1])), origin=o)
     if k == "X":
         return RtFixed((build(desc[1], origin_of, path + (("pair", 0),)), build(desc[2], origin_of, path + (("pair", 1),))), origin=o)  # type: ignore[arg-type]
+    if k == "D":
+        # a subtree that is detached right after it is built: an equal subtree built later re-uses its ids (same-id twins)
+        n = build(desc[1], origin_of, path)
+        n.detach()
+        return n
     raise ValueError(desc)
 
 
@@ -130,6 +136,8 @@ def size(desc: Any) -> int:
         return 1 + size(desc[1]) + (size(desc[2]) if desc[2] is not None else 0)
     if k == "T":
         return 1 + sum(size(d) for d in desc[1])
+    if k == "D":
+        return size(desc[1])
     return 3
 
 
